@@ -617,6 +617,9 @@ func (h *H[T]) execShare(p *shareProgram, sim *simrt.Sim, label string) *shareRe
 	}
 	simrt.Begin(sim)
 	sim.Run(est)
+	if sim.LibPanicked {
+		return res
+	}
 	for ti, t := range roots { // (the library may have started tasks of its own)
 		res.rogue[ti] = t.PanicVal
 	}
